@@ -15,4 +15,12 @@ KindNames == {KindName[k] : k \in DOMAIN KindName}
 \* the order in which predicates / typed conversions are logged
 KindSeq == <<"null", "remove", "marker", "na", "bool", "num", "str", "uri", "ref", "symbol", "date", "time", "dt", "coord", "xstr", "list", "dict", "grid">>
 IndexOfKind(k) == CHOOSE i \in 1..Len(KindSeq) : KindSeq[i] = k
+
+\* grid helpers (val/grid.rs; beyond the listed property): an error grid is one whose meta has the marker tag `err`;
+\* make_err(dis) is the grid without rows, one column `empty`, meta {dis, err}; make_empty the same without meta
+HasErrMarker(meta) == \E i \in 1..Len(meta) : meta[i][1] = CodePoints("err") /\ meta[i][2].k = "marker"
+EmptyCols == <<Col(CodePoints("empty"), <<>>)>>
+ErrGrid(dis) == Grid(<<51, 46, 48>>, <<<<CodePoints("dis"), Str(dis)>>, <<CodePoints("err"), Marker>>>>, EmptyCols, <<>>)
+EmptyGrid == Grid(<<51, 46, 48>>, <<>>, EmptyCols, <<>>)
+DefaultGrid == Grid(<<51, 46, 48>>, <<>>, <<>>, <<>>)
 =============================================================================
